@@ -278,7 +278,7 @@ func Run(tier string) {
 	run.Assume("AgeHeader.tla is a faithful reading of the age v1 header grammar (checked against the 85 binary CCTV vectors in oracle mode)")
 	seed := run.Seed
 	if !run.Thorough() {
-		runGen(run, "classes1", genCfg("classes", 1, 2, "{0, 1, 2, 3, 46, 47}", `{"st0","st1","st2","st3"}`, seed, 0, "CanonicalAndEmit GoodPathsAccepted"), 16)
+		runGen(run, "classes1", genCfg("classes", 1, 2, "{0, 2, 47}", `{"st0","st1","st2","st3"}`, seed, 0, "CanonicalAndEmit GoodPathsAccepted"), 16)
 		runGen(run, "classes2", genCfg("classes", 2, 1, "{0, 47}", `{"st0","st2"}`, seed, 0, "CanonicalAndEmit GoodPathsAccepted"), 16)
 		runGen(run, "free", genCfg("free", 0, 0, "{0}", `{"st0"}`, seed, 4, "CanonicalAndEmit"), 16)
 		runGen(run, "wf", genCfg("wf", 1, 0, "{0}", `{"st0"}`, seed, 0, "CanonicalAndEmit RoundTripInv"), 16)
